@@ -50,6 +50,13 @@ fn main() {
             }
             _ => gen_linear(&mut rng, 5, 8),
         };
+        if i % 7 == 5 {
+            sys = gen_disparity(&mut rng);
+        } else if i % 3 == 2 {
+            // mild conflicts across priority levels (mixed verdicts within the attempted subset)
+            let b = gen_planted(&mut rng, 8, 1e-2, &SHAPES);
+            sys = with_mild_conflicts(&mut rng, b);
+        }
         if i % 9 == 8 {
             let s2 = with_priorities(&mut rng, sys);
             sys = with_contradictions(&mut rng, s2);
